@@ -23,7 +23,7 @@ PROP = "C02"
 KINDS = ["ALA", "PRO", "GLY", "WAT", "LIG"]
 
 
-def _lines(chains):
+def _lines(chains, final_ter=True):
     """chains: list of (chain id, [(kind, has_oxt)]) -> PDB lines with peptide geometry"""
     lines = []
     serial = 1
@@ -42,7 +42,8 @@ def _lines(chains):
                 rl = [fixtures.atom_line(serial, "C1", "LIG", cid, i + 1, off[0], off[1] + 6.0, off[2] + 3.0, record="HETATM"), fixtures.atom_line(serial + 1, "O1", "LIG", cid, i + 1, off[0] + 1.2, off[1] + 6.0, off[2] + 3.0, record="HETATM")]
             serial += len(rl)
             lines += rl
-        lines.append("TER")
+        if final_ter or ci < len(chains) - 1:
+            lines.append("TER")
     return lines
 
 
@@ -93,10 +94,16 @@ def h_termini(eng, layout, first=None, na=3):
     elif layout == "blank-chain":
         a = [(KINDS[eng.choice(f"a{i}", 3)], False) for i in range(2)]
         chains = [("", a + [("WAT", False)])]
+    elif layout == "blank-two-chains":
+        # two chains with blank chain ids, separated only by TER records; the final TER is optional
+        a = [(KINDS[eng.choice(f"a{i}", 3)], False) for i in range(2)]
+        b = [(KINDS[eng.choice(f"b{i}", 3)], False) for i in range(2)]
+        chains = [("", a), ("", b)]
+        final_ter = bool(eng.flag("final_ter"))
     else:
         raise KeyError(layout)
     neutraln, neutralc = eng.flag("neutraln"), eng.flag("neutralc")
-    bm, _ = fixtures.biomolecule(_lines(chains))
+    bm, _ = fixtures.biomolecule(_lines(chains, final_ter if layout == "blank-two-chains" else True))
     # closure distance of every chain (N of first, C of last) symbolic
     close = {}
     pairs = {}
@@ -251,6 +258,7 @@ def obligations(tier):
         *[Obligation(f"termini-kinds-first={KINDS[k]}", h_termini, dict(layout="kinds", first=k, na=3 if tier == "quick" else 4), group="termini", time_cap=3000, max_paths=400000) for k in range(len(KINDS))],
         Obligation("termini-hidden-ends", h_termini, dict(layout="hidden-ends"), group="termini", time_cap=3000, max_paths=100000),
         Obligation("termini-blank-chain", h_termini, dict(layout="blank-chain"), group="termini", time_cap=1500, max_paths=100000),
+        Obligation("termini-blank-two-chains", h_termini, dict(layout="blank-two-chains"), group="termini", time_cap=1500, max_paths=100000),
         Obligation("guard", h_guard, {}, group="guard", time_cap=600),
     ]
     for n in (1, 2) if tier == "quick" else (1, 2, 3):
